@@ -182,7 +182,7 @@ def run(pid, tier):
         small = path + ".small"     # further seeds skip the very long arrays (their classes do not depend on the seed)
         with open(path) as fi, open(small, "w") as fo:
             for ln in fi:
-                if int(ln.split()[2]) <= 5000:
+                if int(ln.split()[2]) <= 5000 and "giantrun" not in ln:
                     fo.write(ln)
         for sd in seeds:
             cmds = []
